@@ -2,3 +2,4 @@ pub mod c12;
 pub mod e1;
 pub mod e3;
 pub mod e4;
+pub mod e5;
